@@ -203,3 +203,6 @@ def run(prog, rep, tier, cfg):
         X.arg_has('K10', 'selfdestruct:whole-balance', c, vi, ['C:Runtime::current_balance'], 'the whole balance moves to the beneficiary')
         rep.need('K8', 'selfdestruct:transfer-propagated', result_fate(SDF, c) == 'try', 'a failed transfer aborts the selfdestruct', c.where)
         X.precedes('K7', 'selfdestruct:transfer-before-mark', SDF, [c.bb], mk, 'funds move before the tombstone is set')
+    # ---- error discipline: no Result produced in these crates is silently discarded
+    X.no_dropped_results('K14', 'results-not-discarded', ['fil_actor_evm'], 'no Result of a call is discarded')
+
